@@ -67,16 +67,74 @@ func (p *Program) mustStoreField(fn *ssa.Function, sn, fld string, depth int) bo
 	return any
 }
 
+// wholeStructStore: `*p = T{}` (tmp == nil) or `*p = T{f: v, ...}` (tmp is the
+// composite literal's temporary, whose field stores say what is kept).
+func wholeStructStore(st *ssa.Store) (tmp *ssa.Alloc, ok bool) {
+	if isZeroStructStore(st) {
+		return nil, true
+	}
+	u, isU := st.Val.(*ssa.UnOp)
+	if !isU || u.Op != token.MUL {
+		return nil, false
+	}
+	al, isA := u.X.(*ssa.Alloc)
+	if !isA || al.Comment != "complit" {
+		return nil, false
+	}
+	if _, isStruct := derefType(al.Type()).Underlying().(*types.Struct); !isStruct {
+		return nil, false
+	}
+	return al, true
+}
+
+// resetHelper: callee is a method that replaces the whole struct its receiver
+// points to on every path (the reset written as a method of the reused type).
+func resetHelper(callee *ssa.Function) *ssa.Store {
+	if callee == nil || len(callee.Blocks) == 0 || callee.Signature.Recv() == nil || len(callee.Params) == 0 {
+		return nil
+	}
+	var zero *ssa.Store
+	eachInstr(callee, func(_ *ssa.BasicBlock, in ssa.Instruction) {
+		if st, ok := in.(*ssa.Store); ok && st.Addr == ssa.Value(callee.Params[0]) {
+			if _, ok := wholeStructStore(st); ok {
+				zero = st
+			}
+		}
+	})
+	if zero == nil {
+		return nil
+	}
+	for _, ret := range returnsOf(callee) {
+		if !(zero.Block() == ret.Block() || zero.Block().Dominates(ret.Block())) {
+			return nil
+		}
+	}
+	return zero
+}
+
+type zeroEvent struct {
+	at   ssa.Instruction
+	addr ssa.Value
+}
+
 // returnsFreshOrReset: every value fn returns (result 0) is a fresh allocation
-// or a parameter that was whole-struct zeroed on the way.
+// or a parameter that was whole-struct reset on the way (by a store, or by a
+// reset method called on it).
 func returnsFreshOrReset(fn *ssa.Function) bool {
 	if len(fn.Blocks) == 0 {
 		return false
 	}
-	var zeroStores []*ssa.Store
+	var zeroStores []zeroEvent
 	eachInstr(fn, func(_ *ssa.BasicBlock, in ssa.Instruction) {
-		if st, ok := in.(*ssa.Store); ok && isZeroStructStore(st) {
-			zeroStores = append(zeroStores, st)
+		if st, ok := in.(*ssa.Store); ok {
+			if _, ok := wholeStructStore(st); ok {
+				zeroStores = append(zeroStores, zeroEvent{st, st.Addr})
+			}
+		}
+		if cs, ok := in.(*ssa.Call); ok {
+			if resetHelper(cs.Call.StaticCallee()) != nil && len(cs.Call.Args) > 0 {
+				zeroStores = append(zeroStores, zeroEvent{cs, cs.Call.Args[0]})
+			}
 		}
 	})
 	var okVal func(v ssa.Value, at *ssa.BasicBlock, seen map[ssa.Value]bool) bool
@@ -86,7 +144,7 @@ func returnsFreshOrReset(fn *ssa.Function) bool {
 			return true
 		case *ssa.Parameter:
 			for _, st := range zeroStores {
-				if st.Addr == ssa.Value(x) && (st.Block() == at || st.Block().Dominates(at)) {
+				if st.addr == ssa.Value(x) && (st.at.Block() == at || st.at.Block().Dominates(at)) {
 					return true
 				}
 			}
@@ -309,28 +367,50 @@ func ruleR12() *Rule {
 						c.undecided(name+"/allow/"+f, "-", "tabled carry-over field exists", "field "+f+" not found in "+sp.Struct)
 					}
 				}
-				// whole-struct zero store
+				// where the reset is written: in fn itself, or in a reset method
+				// called on the parameter; and what the whole-struct store keeps
+				vfn, vprm := fn, ssa.Value(prm)
 				var zero *ssa.Store
 				eachInstr(fn, func(_ *ssa.BasicBlock, in ssa.Instruction) {
-					if s, ok := in.(*ssa.Store); ok && s.Addr == ssa.Value(prm) && isZeroStructStore(s) {
-						zero = s
+					if s, ok := in.(*ssa.Store); ok && s.Addr == ssa.Value(prm) {
+						if _, ok := wholeStructStore(s); ok {
+							zero = s
+						}
 					}
 				})
-				// field stores through the parameter
+				if zero == nil {
+					for _, cs := range callSites(fn) {
+						callee := staticCallee(cs)
+						if callee == nil || !c.p.InZap(callee) || len(cs.Common().Args) == 0 || cs.Common().Args[0] != ssa.Value(prm) {
+							continue
+						}
+						if z := resetHelper(callee); z != nil {
+							zero, vfn, vprm = z, callee, callee.Params[0]
+						}
+					}
+				}
+				var keptTmp *ssa.Alloc
+				if zero != nil {
+					keptTmp, _ = wholeStructStore(zero)
+				}
+				// field stores through the parameter (or into the composite
+				// literal that replaces it)
 				type fstore struct {
 					st  *ssa.Store
 					fld string
 				}
 				var fstores []fstore
-				eachInstr(fn, func(_ *ssa.BasicBlock, in ssa.Instruction) {
+				eachInstr(vfn, func(_ *ssa.BasicBlock, in ssa.Instruction) {
 					s, ok := in.(*ssa.Store)
 					if !ok {
 						return
 					}
-					if sn, fld, base, ok := fieldOf(s.Addr); ok && sn == sp.Struct && base == ssa.Value(prm) {
+					if sn, fld, base, ok := fieldOf(s.Addr); ok && sn == sp.Struct && (base == vprm || (keptTmp != nil && base == ssa.Value(keptTmp))) {
 						fstores = append(fstores, fstore{s, fld})
 					}
 				})
+				prmV := vprm
+				_ = prmV
 				// carriedFrom: v derives from a load of prm.<f>
 				var carriedFrom func(v ssa.Value, depth int) (string, *ssa.UnOp)
 				carriedFrom = func(v ssa.Value, depth int) (string, *ssa.UnOp) {
@@ -340,7 +420,7 @@ func ruleR12() *Rule {
 					switch x := v.(type) {
 					case *ssa.UnOp:
 						if x.Op == token.MUL {
-							if sn, fld, base, ok := fieldOf(x.X); ok && sn == sp.Struct && base == ssa.Value(prm) {
+							if sn, fld, base, ok := fieldOf(x.X); ok && sn == sp.Struct && base == vprm {
 								return fld, x
 							}
 						}
@@ -357,7 +437,11 @@ func ruleR12() *Rule {
 						"a path returns the caller-supplied object without the whole-struct reset")
 					carried := map[string]*ssa.UnOp{}
 					for _, fs := range fstores {
-						if !(zero.Block() == fs.st.Block() || zero.Block().Dominates(fs.st.Block())) {
+						intoTmp := false
+						if _, _, base, ok := fieldOf(fs.st.Addr); ok && keptTmp != nil && base == ssa.Value(keptTmp) {
+							intoTmp = true
+						}
+						if !intoTmp && !(zero.Block() == fs.st.Block() || zero.Block().Dominates(fs.st.Block())) {
 							continue
 						}
 						if from, ld := carriedFrom(fs.st.Val, 0); from != "" {
@@ -391,8 +475,8 @@ func ruleR12() *Rule {
 						method := sp.Clean[f]
 						found := false
 						var why string
-						deps := controlDeps(fn)
-						for _, cs := range callSites(fn) {
+						deps := controlDeps(vfn)
+						for _, cs := range callSites(vfn) {
 							callee := staticCallee(cs)
 							if callee == nil || callee.Name() != method || len(cs.Common().Args) == 0 {
 								continue
@@ -416,7 +500,7 @@ func ruleR12() *Rule {
 									if from, _ := carriedFrom(other, 0); from == f {
 										continue
 									}
-									if other == ssa.Value(prm) {
+									if other == vprm {
 										continue
 									}
 									if g, ok := other.(*ssa.UnOp); ok {
@@ -425,7 +509,7 @@ func ruleR12() *Rule {
 										}
 									}
 								}
-								if bo, ok := cond.(*ssa.BinOp); ok && (bo.X == ssa.Value(prm) || bo.Y == ssa.Value(prm)) {
+								if bo, ok := cond.(*ssa.BinOp); ok && (bo.X == vprm || bo.Y == vprm) {
 									continue // the `rv == nil || rv == sentinel` test selecting the reuse path
 								}
 								okDeps = false
@@ -449,7 +533,7 @@ func ruleR12() *Rule {
 					}
 					var missing []string
 					for i := 0; i < st.NumFields(); i++ {
-						f := st.Field(i).Name()
+						f := canonFieldName(sp.Struct, st, i)
 						if !allow[f] && !zeroed[f] {
 							missing = append(missing, f)
 						}
